@@ -7,7 +7,6 @@
 #include "galois/Galois.h"
 #include "galois/substrate/ThreadPool.h"
 
-#include <signal.h>
 
 using namespace c10;
 namespace gs = galois::substrate;
@@ -93,13 +92,10 @@ struct Gen {
   }
 };
 
-bool g_allowSelfLoops = true; // --param selfloops=0 (TSan runs, see lib/specs/c10.py)
 void features(Rng& rng, CaseSpec& s, unsigned multiPct, unsigned selfPct, unsigned removalPct) {
   s.multiEdges  = rng.below(100) < multiPct;
   s.selfLoops   = rng.below(100) < selfPct;
   s.nodeRemoval = rng.below(100) < removalPct;
-  if (!g_allowSelfLoops)
-    s.selfLoops = false;
 }
 
 void genSequential(Rng& rng, const Flavour& fl, CaseSpec& s, bool thorough) {
@@ -317,9 +313,9 @@ void genLoop(Rng& rng, const Flavour& fl, CaseSpec& s, bool bare, bool thorough,
 
 } // namespace
 
-// After a case that reported a violation the process may be internally corrupt (the removeEdge defects write through
-// invalidated iterators). The case has ended normally; the remaining cases continue in a fresh process image that
-// appends to the same event stream.
+// After a case that reported a violation the process may be internally corrupt (a graph that diverged from the model
+// can have written through invalid iterators). The case has ended normally; the remaining cases continue in a fresh
+// process image that appends to the same event stream. Costs nothing while the check is silent.
 static void continueInFreshProcess(int argc, char** argv, long nextCase) {
   std::vector<std::string> args;
   for (int i = 0; i < argc; ++i) {
@@ -341,50 +337,6 @@ static void continueInFreshProcess(int argc, char** argv, long nextCase) {
   _exit(2);
 }
 
-// Case classes in which the open removeEdge defects apply (self-loops; parallel edges on graphs with reverse entries)
-// corrupt adjacency vectors, so the process may die in many different ways (SIGSEGV, boost assertion, ASan report).
-// For those classes only, a fatal signal is recorded by the harness itself under ONE key per (family, class) and the
-// process leaves with the "violation already recorded" exit code; all other classes keep the driver's crash keys.
-static char g_crashLine[4096];
-static size_t g_crashLen = 0, g_crashSigPos = 0;
-static int g_crashFd     = -1;
-static const int g_sigs[] = {SIGSEGV, SIGABRT, SIGBUS, SIGFPE, SIGILL};
-static struct sigaction g_oldSig[5];
-static bool g_crashArmed = false;
-static void crashHandler(int sig) {
-  g_crashLine[g_crashSigPos]     = (char)('0' + (sig / 10) % 10);
-  g_crashLine[g_crashSigPos + 1] = (char)('0' + sig % 10);
-  ssize_t w = write(g_crashFd, g_crashLine, g_crashLen);
-  (void)w;
-  _exit(3);
-}
-static void armCrashKey(Harness& H, long k, const std::string& key, const std::string& params) {
-  std::string line = J().kv("ev", "violation").kv("case", k).kv("key", key).raw("params", params)
-                         .raw("detail", J().kv("what", "the process received a fatal signal while running a case of a class in which "
-                                                        "removeEdge corrupts adjacency vectors (self-loop / parallel-edge defects)")
-                                            .kv("signal", "SIG00").str()).str() + "\n";
-  if (line.size() >= sizeof g_crashLine)
-    return;
-  memcpy(g_crashLine, line.data(), line.size());
-  g_crashLen    = line.size();
-  g_crashSigPos = line.find("SIG00") + 3;
-  g_crashFd     = fileno(H.out);
-  struct sigaction sa;
-  memset(&sa, 0, sizeof sa);
-  sa.sa_handler = crashHandler;
-  sigemptyset(&sa.sa_mask);
-  for (unsigned i = 0; i < 5; ++i)
-    sigaction(g_sigs[i], &sa, &g_oldSig[i]);
-  g_crashArmed = true;
-}
-static void disarmCrashKey() {
-  if (!g_crashArmed)
-    return;
-  for (unsigned i = 0; i < 5; ++i)
-    sigaction(g_sigs[i], &g_oldSig[i], nullptr);
-  g_crashArmed = false;
-}
-
 int main(int argc, char** argv) {
   Harness H("C10", argc, argv);
   galois::SharedMemSys G;
@@ -396,7 +348,6 @@ int main(int argc, char** argv) {
   std::string onlyFl   = H.param("flavour");
   std::string onlyMode = H.param("mode");
   long maxItems        = H.paramInt("maxitems", 0);
-  g_allowSelfLoops     = H.paramInt("selfloops", 1) != 0;
   std::vector<const Flavour*> pool;
   for (auto& f : reg)
     if (onlyFl.empty() || strstr(f.name, onlyFl.c_str()))
@@ -441,24 +392,17 @@ int main(int argc, char** argv) {
     for (auto& p : s.progs)
       nops += p.nops;
     H.hangKey = std::string("C10:") + fl.family + ":hang";
-    std::string paramsJson;
-    H.begin(k, paramsJson = J().kv("component", fl.family).kv("flavour", fl.name).kv("mode", modeName(s.mode)).kv("threads", s.threads)
+    H.begin(k, J().kv("component", fl.family).kv("flavour", fl.name).kv("mode", modeName(s.mode)).kv("threads", s.threads)
                    .kv("sockets", nsock).kv("n0", s.n0).kv("nTotal", s.nTotal).kv("init_ops", (uint64_t)s.init.size())
                    .kv("items", (uint64_t)s.progs.size()).kv("ops", (uint64_t)nops).kv("multiEdges", s.multiEdges)
                    .kv("selfLoops", s.selfLoops).kv("nodeRemoval", s.nodeRemoval).kv("parts", s.parts)
                    .kv("unprotectedC", s.unprotectedC).kv("parallelInit", s.parallelInit).kv("pointProb", pointProb)
                    .kv("spinProb", spinProb).str());
     CaseResult r;
-    {
-      std::string cls = std::string((s.multiEdges && tracksReverse(fl.flags)) ? ":multi-edge" : "") + (s.selfLoops ? ":self-loop" : "");
-      if (!cls.empty())
-        armCrashKey(H, k, std::string("C10:") + fl.family + ":crash" + cls, paramsJson);
-    }
     if (loop)
       perturb_case(pseed, pointProb, spinProb, 40);
     galois::setActiveThreads(s.threads);
     fl.run(s, fl, r);
-    disarmCrashKey();
     perturb_off();
     galois::setActiveThreads(1);
 
@@ -488,8 +432,7 @@ int main(int argc, char** argv) {
       if (r.kindCount[kd])
         obs.kv((std::string("op_") + kindName(kd)).c_str(), r.kindCount[kd]);
     H.end(k, sig, nontrivial, obs.str());
-    // (self-loop removal on graphs with reverse entries may also corrupt memory without an oracle noticing)
-    if ((!r.viols.empty() || (s.selfLoops && tracksReverse(fl.flags))) && H.only < 0) {
+    if (!r.viols.empty() && H.only < 0) {
       // hand the failpoint counters of this process image to the driver (it sums every "done" event)
       H.line(J().kv("ev", "done").kv("partial", true).kv("violations", H.nViolations).raw("points", point_stats_json()).str());
       continueInFreshProcess(argc, argv, k + 1);
